@@ -454,13 +454,15 @@ def native_strain_rotated(shear):
                        # exactly two equal fractions, in each position (tetragonal / hexagonal cells: a = b != c): the slots of the rotated frame are NOT the crystal axes
                        [[0.4, 0.4, 0.2], [0.3, 0.3, 0.4]], [[0.2, 0.4, 0.4], [0.5, 0.25, 0.25]], [[0.4, 0.2, 0.4]], [[0.4, 0.4, 0.2], [0.2, 0.3, 0.5]],
                        # whole-number triples handed over as an INTEGER array (positive triples all the same): the result is a real array
-                       numpy.array([[1, 2, 3], [3, 1, 2]]), numpy.array([[1, 1, 1]]), numpy.array([[2, 2, 1]])):
+                       numpy.array([[1, 2, 3], [3, 1, 2]]), numpy.array([[1, 1, 1]]), numpy.array([[2, 2, 1]]),
+                       # magnitudes: un-normalised strain increments (1e-7 ... 1e-9), an almost incompressible axis, very large numbers -- positive triples all the same
+                       [[2e-7, 5e-7, 9e-7], [3e-9, 1e-9, 2e-9]], [[1e-9, 0.4, 0.6]], [[2e5, 3e5, 1e5]]):
             e = numpy.array(strain)
             o = S(e, key)
             T = numpy.asarray(o.transformation_matrix, dtype=float)
             want = e @ (T * T)
             got = numpy.asarray(o.strain_rotated, dtype=float)
-            if got.shape != want.shape or not numpy.allclose(got, want, rtol=1e-10, atol=1e-13):
+            if got.shape != want.shape or not numpy.allclose(got, want, rtol=1e-10, atol=1e-13 * float(numpy.abs(e).max())):
                 return {"reproduced": True, "key": repr(key), "strain": numpy.asarray(strain).tolist(), "dtype": str(e.dtype), "observed": got.tolist(), "expected": want.tolist()}
     return {"reproduced": False}
 
